@@ -487,7 +487,8 @@ func bfRangeEntryLines(section string) string {
 			if end < 0 {
 				return out.String()
 			}
-			out.WriteString(section[i : i+end+1])
+			// white space inside a hex string is not significant and must not end the entry's line
+			out.WriteString(strings.Join(strings.Fields(section[i:i+end+1]), ""))
 			out.WriteByte(' ')
 			i += end
 			if !inArray {
